@@ -8,7 +8,10 @@ CLASSES = {
   # (source, start_time, ar, message properties): the context of the bottom stack entry
   'RespCtx': dict(extern=True, path=None, bases=[], listlike=['source', 'start_time', 'ar', 'props'],
                   fields={'source': 'Source?', 'start_time': 'real', 'ar': 'AsyncResult', 'props': 'Props'}),
-  'Source': dict(file='scales/varz.py', path='Source', bases=[], fields={'method': 'any', 'service': 'any', 'endpoint': 'any', 'client_id': 'any'}),
+  'Source': dict(file='scales/varz.py', path='Source', bases=[], fields={'method': 'any', 'service': 'any', 'endpoint': 'any', 'client_id': 'any'},
+                 # dictionary keys by value: justified by lemma_source_value_equality / lemma_source_distinct (C18), which are
+                 # obligations on the class's own __eq__ / __hash__
+                 value_key=['method', 'service', 'endpoint', 'client_id']),
   'MethodCallMessage': dict(extern=True, path=None, bases=['Message'], fields={'method': 'any', 'args': 'any', 'kwargs': 'any', 'service': 'any'}),
   'InternalError': dict(path='InternalError', bases=[], fields={}),
 }
